@@ -376,6 +376,9 @@ func (t *WeightedMerkleTrie) Weight() uint64 {
 func (t *WeightedMerkleTrie) Commit(collapseLevel int) (storage.Batcher, error) {
 	batcher := t.db.NewBatch()
 	if !t.root.Dirty() {
+		// nothing to save, so this commit creates no node: the list of the
+		// previous commit must not be what a rollback of this one deletes
+		t.created = nil
 		return batcher, nil
 	}
 	root, ok := t.root.(*routingNode)
